@@ -2,6 +2,7 @@
 mod codec;
 mod common;
 mod e2e;
+mod gen;
 mod misc;
 mod mock;
 mod props;
